@@ -8,6 +8,28 @@ import NngModel.Spec.Pipeline
 namespace Nng.Push
 open Nng Nng.Proto Nng.PipelineSpec
 
+/-! ### the judge without the FIFO-admission clause
+
+  `pushStep` = `pushStepOld` preceded by the clause `parkedOvertaken` (FIFO admission of parked
+  senders).  The simulation below is carried out for `pushStepOld`; `step_fifo` shows separately
+  that the model never trips the clause, `step_R` puts the two together. -/
+
+def pushStepOld (j : PushJ) (ev : Ev) (outs : List Out) : PushJ :=
+  if j.err.isSome then j else
+  if notExecuted outs then j else
+  match ev with
+  | .recv .. => j
+  | _ =>
+  let (j, nb) := pushPre j ev outs
+  let j := pushNewPipes outs j
+  let j := (outs.filter isDone).foldl (pushOut nb) j
+  let j := (outs.filter (fun o => !isDone o)).foldl (pushOut nb) j
+  pushPost nb outs j
+
+theorem pushStep_old {j : PushJ} {ev : Ev} {outs : List Out}
+    (hf : parkedOvertaken j.pending outs = false) : pushStep j ev outs = pushStepOld j ev outs := by
+  cases ev <;> simp only [pushStep, pushStepOld, hf, Bool.false_eq_true, if_false]
+
 /-! ### pipe table lemmas -/
 
 theorem getP_some {ps : List Pipe} {p : Nat} {pp : Pipe} (h : getP ps p = some pp) :
@@ -489,16 +511,16 @@ def procOuts (nb : Option (Nat × WMsg)) (outs : List Out) (j : PushJ) : PushJ :
 
 theorem pushStep_eq {j : PushJ} {ev : Ev} {outs : List Out} (herr : j.err = none)
     (hne : notExecuted outs = false) (hnr : isRecv ev = false) :
-    pushStep j ev outs =
+    pushStepOld j ev outs =
       pushPost (pushPre j ev outs).2 outs
         (procOuts (pushPre j ev outs).2 outs (pushNewPipes outs (pushPre j ev outs).1)) := by
-  unfold pushStep procOuts
+  unfold pushStepOld procOuts
   simp only [herr, hne]
   cases ev <;> first | (simp [isRecv] at hnr; done) | rfl
 
 theorem pushStep_refused {j : PushJ} {ev : Ev} {outs : List Out} (hne : notExecuted outs = true) :
-    pushStep j ev outs = j := by
-  unfold pushStep; simp [hne]
+    pushStepOld j ev outs = j := by
+  unfold pushStepOld; simp [hne]
 
 def isPipeOut : Out → Bool | .pipe _ => true | _ => false
 
@@ -845,7 +867,7 @@ theorem failEach_outs (rv : Nat) (l : List Nat) :
 theorem failBatch_R {s : State} {j : PushJ} {ev : Ev} (hR : R s j) (rv : Nat) (hrv : rv ≠ 0) (l : List Nat)
     (hI' : Inv (failEach s rv l).1) (hnr : isRecv ev = false)
     (hpre : pushPre j ev (failEach s rv l).2 = (j, none)) :
-    R (failEach s rv l).1 (pushStep j ev (failEach s rv l).2) := by
+    R (failEach s rv l).1 (pushStepOld j ev (failEach s rv l).2) := by
   have ho := failEach_outs rv l s
   rw [pushStep_eq hR.err (tame_all (fun o h => (ho o h).1)).1 hnr, hpre]
   refine finish hI' ?_ (tame_all (fun o h => (ho o h).1)).2 (Or.inl rfl)
@@ -859,7 +881,7 @@ theorem failBatch_R {s : State} {j : PushJ} {ev : Ev} (hR : R s j) (rv : Nat) (h
 theorem step_plain {s : State} {j : PushJ} {ev : Ev} {outs : List Out} (hI : Inv s) (hR : R s j)
     (hne : notExecuted outs = false) (hnr : isRecv ev = false)
     (hpre : pushPre j ev outs = (j, none)) (hnp : ∀ o ∈ outs, isPipeOut o = false)
-    (hproc : procOuts none outs j = j) (hb : outs.any isBlocked = false) : pushStep j ev outs = j := by
+    (hproc : procOuts none outs j = j) (hb : outs.any isBlocked = false) : pushStepOld j ev outs = j := by
   rw [pushStep_eq hR.err hne hnr, hpre]
   simp only [pushNewPipes_none hnp, hproc]
   have := finish (nb := none) (outs := outs) hI hR hb (Or.inl rfl)
@@ -869,7 +891,7 @@ theorem step_plain {s : State} {j : PushJ} {ev : Ev} {outs : List Out} (hI : Inv
 /-- an event that closes pipe `p` after printing `rv 0` -/
 theorem rvClose_R {s : State} {j : PushJ} {ev : Ev} (hI : Inv s) (hR : R s j) (p : Nat)
     (hnr : isRecv ev = false) (hpre : ∀ outs, pushPre j ev outs = (j, none)) :
-    R (closePipe s p).1 (pushStep j ev ([Out.rv 0] ++ (closePipe s p).2)) := by
+    R (closePipe s p).1 (pushStepOld j ev ([Out.rv 0] ++ (closePipe s p).2)) := by
   have ho := closePipe_outs s p
   have ht : ∀ o ∈ [Out.rv 0] ++ (closePipe s p).2, tame o = true :=
     tame_append (by simp [tame]) (fun o h => (ho o h).2.1)
@@ -888,7 +910,7 @@ theorem rvClose_R {s : State} {j : PushJ} {ev : Ev} (hI : Inv s) (hR : R s j) (p
   exact closePipe_R hR none p
 
 theorem evPipeDrop_R {s : State} {j : PushJ} (hI : Inv s) (hR : R s j) (p : Nat) :
-    R (evPipeDrop s p).1 (pushStep j (.pipeDrop p) (evPipeDrop s p).2) := by
+    R (evPipeDrop s p).1 (pushStepOld j (.pipeDrop p) (evPipeDrop s p).2) := by
   unfold evPipeDrop
   split
   · split
@@ -897,7 +919,7 @@ theorem evPipeDrop_R {s : State} {j : PushJ} (hI : Inv s) (hR : R s j) (p : Nat)
   · rw [step_plain hI hR (by simp [notExecuted]) rfl rfl (by simp [isPipeOut]) rfl (by simp [isBlocked])]; exact hR
 
 theorem evRecvDone_R {s : State} {j : PushJ} (hI : Inv s) (hR : R s j) (p : Nat) (r : Except Nat Bytes) :
-    R (evRecvDone s p r).1 (pushStep j (.recvDone p r) (evRecvDone s p r).2) := by
+    R (evRecvDone s p r).1 (pushStepOld j (.recvDone p r) (evRecvDone s p r).2) := by
   unfold evRecvDone
   split
   · split
@@ -917,8 +939,8 @@ theorem Dist_frame {s s' : State} (h1 : s'.aq = s.aq) (h2 : s'.dropped = s.dropp
   unfold Dist at hD ⊢; rw [h1, h2, h3, h4, h5]; exact hD
 
 theorem evSendDone_R {s : State} {j : PushJ} (hI : Inv s) (hI2 : Inv2 s) (hD : Dist s) (hR : R s j)
-    (p rv : Nat) : R (evSendDone s p rv).1 (pushStep j (.sendDone p rv) (evSendDone s p rv).2) := by
-  have hplain : pushStep j (.sendDone p rv) [Out.rv (-1)] = j :=
+    (p rv : Nat) : R (evSendDone s p rv).1 (pushStepOld j (.sendDone p rv) (evSendDone s p rv).2) := by
+  have hplain : pushStepOld j (.sendDone p rv) [Out.rv (-1)] = j :=
     step_plain hI hR (by simp [notExecuted]) rfl (by simp [pushPre]) (by simp [isPipeOut]) rfl (by simp [isBlocked])
   unfold evSendDone getPipe
   split
@@ -994,7 +1016,7 @@ theorem pushNewPipes_cons_pipe (id : Nat) (tl : List Out) (j : PushJ) (htl : ∀
   simp
 
 theorem evPipeAdd_R {s : State} {j : PushJ} (hI : Inv s) (hI2 : Inv2 s) (hD : Dist s) (hR : R s j)
-    (peer : Nat) : R (evPipeAdd s peer).1 (pushStep j (.pipeAdd peer) (evPipeAdd s peer).2) := by
+    (peer : Nat) : R (evPipeAdd s peer).1 (pushStepOld j (.pipeAdd peer) (evPipeAdd s peer).2) := by
   have hnidle : s.pipes.length ∉ j.idle := by
     intro h; have := pl_lt hI2 ((hR.idle _).1 h); omega
   have hnbusy : s.pipes.length ∉ j.busy := by
@@ -1083,7 +1105,7 @@ theorem pushPre_send (j : PushJ) (c : Option Nat) (a : Nat) (m : WMsg) (mode : M
 
 theorem evSend_R {s : State} {j : PushJ} (hI : Inv s) (hI2 : Inv2 s) (hR : R s j) (c : Option Nat) (a : Nat)
     (m : WMsg) (mode : Mode) (hm : m ∉ s.offered.map (·.m)) :
-    R (evSend s a m mode).1 (pushStep j (.send c a m mode) (evSend s a m mode).2) := by
+    R (evSend s a m mode).1 (pushStepOld j (.send c a m mode) (evSend s a m mode).2) := by
   have hI' := evSend_inv hI a m mode
   unfold evSend at hI' ⊢
   split
@@ -1261,7 +1283,7 @@ theorem flagAll_flagged (u : List Acc) : ∀ e ∈ flagAll u, e.shrinkSince = tr
 
 theorem evSetBuf_R {s : State} {j : PushJ} (hI : Inv s) (hop : s.opened = true) (hR : R s j)
     (c : Option Nat) (name ty : String) (v : Int) (hsb : isSendBuf c name ty = true) :
-    R (evSetBuf s v).1 (pushStep j (.setopt c name ty v) (evSetBuf s v).2) := by
+    R (evSetBuf s v).1 (pushStepOld j (.setopt c name ty v) (evSetBuf s v).2) := by
   have hI' := evSetBuf_inv hI hop v
   unfold isSendBuf at hsb
   unfold evSetBuf at hI' ⊢
@@ -1367,7 +1389,7 @@ theorem closeDones_R (nb : Option (Nat × WMsg)) (l : List Parked) : ∀ {s : St
     rw [b]; exact filter_head hn
 
 theorem evClose_R {s : State} {j : PushJ} (hI : Inv s) (hR : R s j) :
-    R (evClose s).1 (pushStep j .close (evClose s).2) := by
+    R (evClose s).1 (pushStepOld j .close (evClose s).2) := by
   have hI' := evClose_inv hI
   have hd : ∀ o ∈ (s.aq.map fun pk => Out.done pk.aio Err.eclosed none true),
       isDone o = true ∧ tame o = true ∧ isPipeOut o = false := by
@@ -1415,10 +1437,10 @@ theorem failEach_one (s : State) (a rv : Nat) : failEach s rv [a] = failParked s
 
 theorem stepLive_R {s : State} {j : PushJ} (hI : Inv s) (hI2 : Inv2 s) (hD : Dist s) (hop : s.opened = true)
     (hR : R s j) (ev : Ev) (ha : isAbort0 ev = false) (hfresh : ∀ m ∈ evBodies ev, m ∉ s.offered.map (·.m)) :
-    R (stepLive s ev).1 (pushStep j ev (stepLive s ev).2) := by
+    R (stepLive s ev).1 (pushStepOld j ev (stepLive s ev).2) := by
   have plain : ∀ (ev : Ev) (o : Out), isRecv ev = false → (∀ outs, pushPre j ev outs = (j, none)) →
       tame o = true → isDone o = false → isPipeOut o = false → (∀ nb j, pushOut nb j o = j) →
-      R s (pushStep j ev [o]) := by
+      R s (pushStepOld j ev [o]) := by
     intro ev o h1 h2 h3 h4 h5 h6
     have ht := tame_all (outs := [o]) (by simpa using h3)
     rw [step_plain hI hR ht.1 h1 (h2 _) (by simpa using h5) (by simp [procOuts, List.filter, h4, h6]) ht.2]
@@ -1431,8 +1453,8 @@ theorem stepLive_R {s : State} {j : PushJ} (hI : Inv s) (hI2 : Inv2 s) (hD : Dis
   case recvDone p r => exact evRecvDone_R hI hR p r
   case send c a m mode => exact evSend_R hI hI2 hR c a m mode (hfresh m (by simp [evBodies]))
   case recv c a mode =>
-    have : ∀ outs, pushStep j (.recv c a mode) outs = j := by
-      intro outs; unfold pushStep; split; rfl; split <;> rfl
+    have : ∀ outs, pushStepOld j (.recv c a mode) outs = j := by
+      intro outs; unfold pushStepOld; split; rfl; split <;> rfl
     rw [this]; unfold evRecv; split <;> exact hR
   case cancel a =>
     rw [← failEach_one]
@@ -1460,7 +1482,7 @@ theorem stepLive_R {s : State} {j : PushJ} (hI : Inv s) (hI2 : Inv2 s) (hD : Dis
   case close => exact evClose_R hI hR
 
 theorem stepIdle_R {s : State} {j : PushJ} (hI : Inv s) (hR : R s j) (ev : Ev) :
-    R (stepIdle s ev).1 (pushStep j ev (stepIdle s ev).2) := by
+    R (stepIdle s ev).1 (pushStepOld j ev (stepIdle s ev).2) := by
   cases ev <;> simp only [stepIdle] <;>
     first
     | (rw [pushStep_refused (by simp [notExecuted])]; exact hR)
@@ -1469,9 +1491,9 @@ theorem stepIdle_R {s : State} {j : PushJ} (hI : Inv s) (hR : R s j) (ev : Ev) :
     rw [step_plain hI hR (by simp [notExecuted]) rfl rfl (by simp) (by simp [procOuts]) (by simp)]
     exact R_frame (s := s) rfl rfl rfl rfl rfl rfl rfl hR
 
-theorem step_R {s : State} {j : PushJ} (hI : Inv s) (hI2 : Inv2 s) (hD : Dist s) (hR : R s j) (ev : Ev)
+theorem step_R_old {s : State} {j : PushJ} (hI : Inv s) (hI2 : Inv2 s) (hD : Dist s) (hR : R s j) (ev : Ev)
     (ha : isAbort0 ev = false) (hfresh : ∀ m ∈ evBodies ev, m ∉ s.offered.map (·.m)) :
-    R (step s ev).1 (pushStep j ev (step s ev).2) := by
+    R (step s ev).1 (pushStepOld j ev (step s ev).2) := by
   unfold step
   split
   · rename_i hop
@@ -1487,6 +1509,216 @@ theorem step_R {s : State} {j : PushJ} (hI : Inv s) (hI2 : Inv2 s) (hD : Dist s)
     split
     · exact stepIdle_R hI hR _
     · exact stepLive_R hI hI2 hD (by simpa using hop) hR _ ha hfresh
+
+
+/-! ### FIFO admission of parked senders -/
+
+/-- no output of the list is a successful completion -/
+def NoOk (outs : List Out) : Prop := ∀ o ∈ outs, ∀ a, isDoneOk a o = false
+
+theorem NoOk.append {a b : List Out} (ha : NoOk a) (hb : NoOk b) : NoOk (a ++ b) := by
+  intro o ho; rcases List.mem_append.1 ho with h | h
+  · exact ha o h
+  · exact hb o h
+
+theorem noOk_of_notDone {outs : List Out} (h : ∀ o ∈ outs, isDone o = false) : NoOk outs := by
+  intro o ho a; have := h o ho; cases o <;> simp_all [isDone, isDoneOk]
+
+theorem overtaken_noOk {pending : List (Nat × WMsg)} {outs : List Out} (h : NoOk outs) :
+    parkedOvertaken pending outs = false := by
+  unfold parkedOvertaken
+  rw [List.any_eq_false]; intro x _
+  rw [Bool.not_eq_true, List.any_eq_false]; intro o ho
+  simp [h o ho x.1]
+
+/-- no parked sender completes successfully -/
+theorem overtaken_none {pending : List (Nat × WMsg)} {outs : List Out}
+    (h : ∀ x ∈ pending, outs.any (isDoneOk x.1) = false) : parkedOvertaken pending outs = false := by
+  unfold parkedOvertaken
+  rw [List.any_eq_false]; intro x hx
+  have hx' : x ∈ pending := (List.dropWhile_suffix _).subset hx
+  simp [h x hx']
+
+/-- only the first parked sender completes successfully -/
+theorem overtaken_head {h0 : Nat × WMsg} {t : List (Nat × WMsg)} {outs : List Out}
+    (hh : outs.any (isDoneOf h0.1) = true) (ht : ∀ x ∈ t, outs.any (isDoneOk x.1) = false) :
+    parkedOvertaken (h0 :: t) outs = false := by
+  unfold parkedOvertaken
+  rw [List.dropWhile_cons_of_pos (by simpa using hh)]
+  exact overtaken_none ht
+
+theorem closePipe_noOk (s : State) (p : Nat) : NoOk (closePipe s p).2 :=
+  noOk_of_notDone (fun o ho => (closePipe_outs s p o ho).1)
+
+theorem closeAll_noOk (l : List Nat) (s : State) : NoOk (closeAll s l).2 :=
+  noOk_of_notDone (fun o ho => (closeAll_outs l s o ho).1)
+
+theorem failParked_noOk (s : State) (a rv : Nat) (hrv : rv ≠ 0) : NoOk (failParked s a rv).2 := by
+  unfold failParked; split
+  · intro o ho b; simp at ho; subst ho; simp [isDoneOk, hrv]
+  · intro o ho; simp at ho
+
+theorem failEach_noOk (rv : Nat) (hrv : rv ≠ 0) (l : List Nat) : ∀ s : State, NoOk (failEach s rv l).2 := by
+  induction l with
+  | nil => intro s o ho; simp [failEach] at ho
+  | cons a l ih => intro s; simp only [failEach]; exact (failParked_noOk s a rv hrv).append (ih _)
+
+/-- push0_pipe_ready admits at most the FIRST parked sender -/
+theorem pipeReady_fifo {s : State} (hnd : (s.aq.map (·.aio)).Nodup) (p : Nat) (pre : List Out) (hpre : NoOk pre) :
+    parkedOvertaken (s.aq.map (fun pk => (pk.aio, pk.msg.m))) (pre ++ (pipeReady s p).2) = false := by
+  have key : ∀ outs, (pipeReady s p).2 = outs →
+      (NoOk outs ∨ ∃ a arest, s.aq = a :: arest ∧ Out.done a.aio 0 none false ∈ outs ∧
+        ∀ o ∈ outs, ∀ b, isDoneOk b o = true → b = a.aio) := by
+    intro outs ho
+    unfold pipeReady pipeReadyCore at ho
+    simp only [] at ho
+    split at ho
+    · split at ho
+      · rename_i a arest haq
+        right; refine ⟨a, arest, haq, by rw [← ho]; simp, ?_⟩
+        intro o hmem b hb; rw [← ho] at hmem; simp at hmem
+        rcases hmem with rfl | rfl
+        · simp [isDoneOk] at hb
+        · simp [isDoneOk] at hb; exact hb.symm
+      · left; rw [← ho]; intro o hmem b; simp at hmem; subst hmem; rfl
+    · split at ho
+      · rename_i a arest haq
+        right; refine ⟨a, arest, haq, by rw [← ho]; simp, ?_⟩
+        intro o hmem b hb; rw [← ho] at hmem; simp at hmem
+        rcases hmem with rfl | rfl
+        · simp [isDoneOk] at hb
+        · simp [isDoneOk] at hb; exact hb.symm
+      · left; rw [← ho]; intro o hmem; simp at hmem
+  rcases key _ rfl with h | ⟨a, arest, haq, hmem, honly⟩
+  · exact overtaken_noOk (hpre.append h)
+  · rw [haq, List.map_cons]
+    rw [haq] at hnd
+    simp only [List.map_cons, List.nodup_cons, List.mem_map, not_exists, not_and] at hnd
+    refine overtaken_head ?_ ?_
+    · rw [List.any_eq_true]; exact ⟨_, List.mem_append.2 (Or.inr hmem), by simp [isDoneOf]⟩
+    · intro x hx
+      obtain ⟨pk, hpk, rfl⟩ := List.mem_map.1 hx
+      rw [List.any_eq_false]; intro o ho
+      rcases List.mem_append.1 ho with h | h
+      · simp [hpre o h pk.aio]
+      · intro hb
+        have := honly o h pk.aio hb
+        exact hnd.1 pk hpk this
+
+/-- the model never trips the FIFO-admission clause -/
+theorem stepLive_fifo {s : State} {j : PushJ} (hI : Inv s) (hR : R s j) (ev : Ev) (ha : isAbort0 ev = false) :
+    parkedOvertaken j.pending (stepLive s ev).2 = false := by
+  rw [hR.pending]
+  have single : ∀ o : Out, (∀ a, isDoneOk a o = false) → NoOk [o] := by
+    intro o h o' ho'; simp at ho'; subst ho'; exact h
+  cases ev <;> simp only [stepLive]
+  case openSock p r => exact overtaken_noOk (single _ (fun _ => rfl))
+  case pipeAdd peer =>
+    unfold evPipeAdd; simp only []
+    split
+    · exact overtaken_noOk (by intro o ho a; simp at ho; rcases ho with rfl | rfl <;> rfl)
+    · exact pipeReady_fifo (s := { s with pipes := s.pipes ++ [{ id := s.pipes.length, armed := true }] })
+        hI.aqNodup s.pipes.length [Out.pipe s.pipes.length, Out.parm s.pipes.length] (by intro o ho a; simp at ho; rcases ho with rfl | rfl <;> rfl)
+  case pipeDrop p =>
+    unfold evPipeDrop
+    split
+    · split
+      · exact overtaken_noOk (single _ (fun _ => rfl))
+      · exact overtaken_noOk ((single _ (fun _ => rfl)).append (closePipe_noOk s p))
+    · exact overtaken_noOk (single _ (fun _ => rfl))
+  case sendDone p rv =>
+    unfold evSendDone getPipe
+    split
+    · rename_i pp hget
+      split
+      · split
+        · exact overtaken_noOk (single _ (fun _ => rfl))
+        · split
+          · exact overtaken_noOk ((single _ (fun _ => rfl)).append (closePipe_noOk s p))
+          · exact pipeReady_fifo (s := { s with pipes := setP s.pipes { pp with busy := none } })
+              hI.aqNodup p [Out.rv 0] (single _ (fun _ => rfl))
+      · exact overtaken_noOk (single _ (fun _ => rfl))
+    · exact overtaken_noOk (single _ (fun _ => rfl))
+  case recvDone p r =>
+    unfold evRecvDone
+    split
+    · split
+      · exact overtaken_noOk (single _ (fun _ => rfl))
+      · split
+        · exact overtaken_noOk (by intro o ho a; simp at ho; rcases ho with rfl | rfl <;> rfl)
+        · exact overtaken_noOk ((single _ (fun _ => rfl)).append (closePipe_noOk s p))
+    · exact overtaken_noOk (single _ (fun _ => rfl))
+  case send c a m mode =>
+    unfold evSend
+    split
+    · exact overtaken_noOk (single _ (fun _ => rfl))
+    · rename_i hbusy
+      have hbusy' : ∀ x ∈ s.aq, ¬ x.aio = a := by simpa using hbusy
+      have fresh : ∀ outs : List Out, (∀ o ∈ outs, ∀ b, isDoneOk b o = true → b = a) →
+          parkedOvertaken (s.aq.map (fun pk => (pk.aio, pk.msg.m))) outs = false := by
+        intro outs h
+        refine overtaken_none ?_
+        intro x hx; obtain ⟨pk, hpk, rfl⟩ := List.mem_map.1 hx
+        rw [List.any_eq_false]; intro o ho hb
+        exact hbusy' pk hpk (h o ho pk.aio hb)
+      split
+      · refine fresh _ ?_
+        intro o ho b hb; simp at ho; rcases ho with rfl | rfl
+        · simp [isDoneOk] at hb; exact hb.symm
+        · simp [isDoneOk] at hb
+      · split
+        · refine fresh _ ?_
+          intro o ho b hb; simp at ho; subst ho; simp [isDoneOk] at hb; exact hb.symm
+        · split
+          · refine fresh _ ?_
+            intro o ho b hb; simp at ho; subst ho; simp [isDoneOk] at hb; exact hb.1.symm
+          · exact overtaken_noOk (by intro o ho; simp at ho)
+  case recv c a mode =>
+    unfold evRecv
+    split
+    · exact overtaken_noOk (single _ (fun _ => rfl))
+    · exact overtaken_noOk (single _ (by intro b; simp [isDoneOk, Err.enotsup]))
+  case cancel a => exact overtaken_noOk (failParked_noOk s a _ (by simp [Err.ecanceled]))
+  case abort a rv =>
+    have hrv : rv ≠ 0 := by intro h; subst h; simp [isAbort0] at ha
+    exact overtaken_noOk (failParked_noOk s a rv hrv)
+  case advance ms =>
+    exact overtaken_noOk (failEach_noOk _ (by simp [Err.etimedout]) _ _)
+  case ctxOpen c => exact overtaken_noOk (single _ (fun _ => rfl))
+  case ctxClose c => exact overtaken_noOk (single _ (fun _ => rfl))
+  case setopt c n t v =>
+    split
+    · unfold evSetBuf; split <;> exact overtaken_noOk (single _ (fun _ => rfl))
+    · exact overtaken_noOk (single _ (fun _ => rfl))
+  case getopt c n t =>
+    split <;> exact overtaken_noOk (single _ (fun _ => rfl))
+  case poll => exact overtaken_noOk (single _ (fun _ => rfl))
+  case sub c t => exact overtaken_noOk (single _ (fun _ => rfl))
+  case unsub c t => exact overtaken_noOk (single _ (fun _ => rfl))
+  case close =>
+    unfold evClose
+    refine overtaken_noOk (NoOk.append ?_ (closeAll_noOk _ _))
+    intro o ho b; simp at ho; obtain ⟨pk, _, rfl⟩ := ho; simp [isDoneOk, Err.eclosed]
+
+theorem step_fifo {s : State} {j : PushJ} (hI : Inv s) (hR : R s j) (ev : Ev) (ha : isAbort0 ev = false) :
+    parkedOvertaken j.pending (step s ev).2 = false := by
+  have idle : ∀ ev, parkedOvertaken j.pending (stepIdle s ev).2 = false := by
+    intro ev; cases ev <;> simp only [stepIdle] <;>
+      exact overtaken_noOk (by intro o ho a; simp at ho; try (subst ho; rfl))
+  unfold step
+  split
+  · split
+    · exact overtaken_noOk (by intro o ho a; simp at ho; subst ho; rfl)
+    · exact idle _
+  · split
+    · exact idle _
+    · exact stepLive_fifo hI hR _ ha
+
+theorem step_R {s : State} {j : PushJ} (hI : Inv s) (hI2 : Inv2 s) (hD : Dist s) (hR : R s j) (ev : Ev)
+    (ha : isAbort0 ev = false) (hfresh : ∀ m ∈ evBodies ev, m ∉ s.offered.map (·.m)) :
+    R (step s ev).1 (pushStep j ev (step s ev).2) := by
+  rw [pushStep_old (step_fifo hI hR ev ha)]
+  exact step_R_old hI hI2 hD hR ev ha hfresh
 
 
 /-! ### which messages a step offers -/
